@@ -209,6 +209,23 @@ def levels(spec, tier):
 # ---------------------------------------------------------------------------------------------------------------
 
 
+def freeze_sources():
+    """Raise-site keys quote source lines through linecache, which re-reads a file whose mtime changed: if the working tree
+    is edited while a shard runs, line numbers of the loaded code would be looked up in the new text. Pin the text that was
+    loaded (linecache never refreshes entries whose mtime is None)."""
+    import linecache
+    import sys
+
+    root = repo_root()
+    for mod in list(sys.modules.values()):
+        f = getattr(mod, "__file__", None)
+        if f and f.endswith(".py") and os.path.realpath(f).startswith(root + os.sep):
+            lines = linecache.getlines(f)
+            ent = linecache.cache.get(f)
+            if ent and len(ent) == 4:
+                linecache.cache[f] = (ent[0], None, ent[2], ent[3])
+
+
 class Mods(object):
     def __init__(self):
         from ural import facebook, youtube, twitter, instagram, telegram, google
@@ -218,6 +235,7 @@ class Mods(object):
         self.fb, self.yt, self.tw, self.ig, self.tg, self.gg = facebook, youtube, twitter, instagram, telegram, google
         self.normalize_url = normalize_url
         self.safe_urlsplit = safe_urlsplit
+        freeze_sources()
         self.types = {
             "facebook": tuple(getattr(facebook, n) for n in RECORDS["facebook"]),
             "youtube": tuple(getattr(youtube, n) for n in RECORDS["youtube"]),
@@ -800,7 +818,7 @@ ARBITRARY = ["", " ", "\t", "\n", "http://", "https://", "//", "/", "#", "?", "h
              "facebook.com:abc/x/posts", "https://user:pw@twitter.com:8080/i", "http://t.me:x/s", "youtu.be:0/", "notfacebook.com/groups/", "facebook.com.evil.org/videos/", "evil.org/facebook.com/posts/",
              "evil.org/?u=twitter.com/i", "http://evil.com/#next=%2Fwatch%3Fv%3Dabc", "http://evil.com/?next=%2Fwatch%3Fv%3D" + VID, "http://evil.com/?a=next%3D%252Fwatch%253Fv%253Dabc", "xfacebook.com/videos/",
              "mytwitter.com/i", "xt.me/s", "t.me.evil.org/s", "docs.google.com.evil.org/document/d", "http://evil.org/docs.google.com/document/d/e/pub", "http://x@docs.google.com@evil.org/document/d/e/x/pub",
-             "twitter.com:[", "t.me:[", "facebook.com:[/posts", "instagram.com:[", "docs.google.com:[", "youtube.com:[", "[", "]", ". ", "..", "/.", "/videos/", "posts/", "/ ",
+             "[.twitter.com/i", "[.t.me/s", "[.facebook.com/x/posts", "[.instagram.com/p", "[@twitter.com/i", "[@t.me/s", "[@facebook.com/groups/", "[@instagram.com/p", "twitter.com:[", "t.me:[", "facebook.com:[/posts", "instagram.com:[", "docs.google.com:[", "youtube.com:[", "[", "]", ". ", "..", "/.", "/videos/", "posts/", "/ ",
              "FACEBOOK.COM/GROUPS/", "TWITTER.COM/I", "T.ME/S", "YOUTU.BE/", "https://facebook.com\\groups\\", "facebook.com/groups/\n", " facebook.com/posts/ ", "https://twitter.com/i\t", "fb.me", "fb.me/", "x.com", "t.me",
              "youtu.be", "twitter.com", "instagram.com", "docs.google.com", "facebook.com", "youtube.com", "%", "%zz", "http://%41.com/", "http://a.com/%", "a" * 300, "http://" + "a." * 80 + "com/"]
 
